@@ -585,6 +585,8 @@ func cmdCheck(prop, tier string) int {
 	knownHit := map[string]bool{}
 	seenClass := map[string]bool{}
 	newClasses := 0
+	crashTrouble := map[string]string{} // crash class -> message of the last attempt that did not reproduce
+	crashConfirmed := map[string]bool{}
 	var violationLines []string
 	os.MkdirAll(filepath.Join(verifDir, "replays"), 0o755)
 	for _, f := range finds {
@@ -592,7 +594,7 @@ func cmdCheck(prop, tier string) int {
 		if f.crash {
 			class = "crash:" + f.v.Msg
 		}
-		if seenClass[class] {
+		if seenClass[class] || crashConfirmed[class] {
 			continue
 		}
 		// known findings are all reported (cheaply: a short shrink); only new
@@ -610,9 +612,19 @@ func cmdCheck(prop, tier string) int {
 		if f.crash {
 			rf2, ok := shrinkCrash(bin, dir, rf, f.v.Msg, tc.shrinkS)
 			if !ok {
-				harnessTrouble = append(harnessTrouble, fmt.Sprintf("worker %d died in run %d (%s) but the crash did not reproduce from the same seed: %s\n%s", f.worker, rf.Run, rf.Scenario, f.v.Msg, tail(runs[f.worker].stderr, 40)))
+				// Not reproduced. If another worker died the same way in another
+				// run, try that one before calling it harness trouble (a crash
+				// behind a coin inside the code under test - Racy scenarios - is
+				// more likely in some runs than in others).
+				crashTrouble[class] = fmt.Sprintf("worker %d died in run %d (%s) but the crash did not reproduce from the same seed: %s\n%s", f.worker, rf.Run, rf.Scenario, f.v.Msg, tail(runs[f.worker].stderr, 40))
+				delete(seenClass, class)
+				if !f.known {
+					newClasses--
+				}
 				continue
 			}
+			delete(crashTrouble, class)
+			crashConfirmed[class] = true
 			rf = rf2
 		} else {
 			raw := filepath.Join(dir, "raw.json")
@@ -695,6 +707,10 @@ func cmdCheck(prop, tier string) int {
 		reported++
 		fmt.Printf("violation: %s rule=%s scenario=%s seed=%d run=%d decisions=%d\n  %s\n", prop, rf.Violation.Rule, rf.Scenario, seed, rf.Run, len(rf.Decisions), rf.Violation.Msg)
 		violationLines = append(violationLines, fmt.Sprintf("VIOLATION property=%s replay=%s", prop, path))
+	}
+
+	for _, class := range sortedKeys(crashTrouble) {
+		harnessTrouble = append(harnessTrouble, crashTrouble[class])
 	}
 
 	// ---- evidence ----
@@ -849,15 +865,29 @@ func loadMeta(bin, dir, prop string) propMeta {
 // an unbuffered decision log, then shrink across processes.
 func shrinkCrash(bin, dir string, rf replayFile, sig string, budgetS int) (replayFile, bool) {
 	live := filepath.Join(dir, "live.txt")
-	w := startWorker(bin, dir, rf.Prop, map[string]string{
-		"VERIF_SEED": strconv.FormatUint(rf.Seed, 10), "VERIF_ONLY_RUN": strconv.FormatUint(rf.Run, 10), "VERIF_SCENARIO": rf.Scenario,
-		"VERIF_LIVE": live, "VERIF_REPLAY_EVERY": "0",
-	}, "crash-rerun")
-	var sum workerSummary
-	if err := readJSON(w.out, &sum); err == nil {
-		return rf, false // did not crash again
+	// A crash whose last step is a coin inside the code under test (a select
+	// with several ready cases, one of which panics: Racy scenarios produce
+	// such states on purpose) does not happen in every execution of the run:
+	// re-execute the run from its seed a few times before giving up. A
+	// deterministic crash reproduces at the first attempt.
+	reproduced := false
+	attempts := 6
+	if sig == wedgeSig {
+		attempts = 1 // every attempt costs a full watchdog period
 	}
-	if deathSignature(w) != sig {
+	for attempt := 0; attempt < attempts && !reproduced; attempt++ {
+		os.Remove(live)
+		w := startWorker(bin, dir, rf.Prop, map[string]string{
+			"VERIF_SEED": strconv.FormatUint(rf.Seed, 10), "VERIF_ONLY_RUN": strconv.FormatUint(rf.Run, 10), "VERIF_SCENARIO": rf.Scenario,
+			"VERIF_LIVE": live, "VERIF_REPLAY_EVERY": "0",
+		}, "crash-rerun")
+		var sum workerSummary
+		if err := readJSON(w.out, &sum); err == nil {
+			continue // did not crash again
+		}
+		reproduced = deathSignature(w) == sig
+	}
+	if !reproduced {
 		return rf, false
 	}
 	data, _ := os.ReadFile(live)
@@ -885,7 +915,24 @@ func shrinkCrash(bin, dir string, rf replayFile, sig string, budgetS int) (repla
 		rf.Note = fmt.Sprintf("wedge; %d decisions up to the point where the run stopped becoming quiescent; not shrunk", len(rf.Decisions))
 		return rf, true
 	}
+	orig := rf.Decisions
 	best, tests := shrink.Shrink(rf.Decisions, test, 400, time.Duration(budgetS)*time.Second)
+	if len(best) != len(orig) {
+		// an intermittent crash (see above) can slip a candidate through the
+		// shrinker that crashes only rarely: keep the shrunk schedule only if
+		// it crashes again in at least two of three further replays
+		hits := 0
+		for k := 0; k < 3; k++ {
+			if test(best) {
+				hits++
+			}
+		}
+		if hits < 2 {
+			rf.Decisions = orig
+			rf.Note = fmt.Sprintf("process crash; %d decisions; the shrunk schedule (%d decisions) crashed in only %d of 3 further replays and was dropped", len(orig), len(best), hits)
+			return rf, true
+		}
+	}
 	rf.Decisions = best
 	rf.Minimized = true
 	rf.Note = fmt.Sprintf("process crash; shrunk from %d to %d decisions in %d fresh-process replays", rf.Original, len(best), tests)
@@ -949,4 +996,13 @@ func cmdSelftest(props []string) int {
 		return 2
 	}
 	return 0
+}
+
+func sortedKeys(m map[string]string) []string {
+	out := make([]string, 0, len(m))
+	for k := range m {
+		out = append(out, k)
+	}
+	sort.Strings(out)
+	return out
 }
